@@ -66,10 +66,11 @@ type Lemma struct {
 }
 
 type Contracts struct {
-	Funcs    map[string]*FuncSpec // key: pkgpath.Name
-	Lemmas   []*Lemma
-	Families []*FuncSpec
-	Lines    int
+	NonNilGlobals map[string]bool
+	Funcs         map[string]*FuncSpec // key: pkgpath.Name
+	Lemmas        []*Lemma
+	Families      []*FuncSpec
+	Lines         int
 }
 
 func specKey(pkg, name string) string { return pkg + "." + name }
@@ -106,6 +107,12 @@ func parseContracts(pkgPath, file string, comments []*ast.CommentGroup, fset *to
 					cur.Trusted = "external function: contract assumed"
 				}
 				into.Funcs[specKey(cur.Pkg, cur.Name)] = cur
+			case strings.HasPrefix(l, "global-nonnil "):
+				if into.NonNilGlobals == nil {
+					into.NonNilGlobals = map[string]bool{}
+				}
+				into.NonNilGlobals[strings.TrimSpace(l[len("global-nonnil "):])] = true
+				cur = nil
 			case strings.HasPrefix(l, "emitted-by "):
 				rest := strings.TrimSpace(l[len("emitted-by "):])
 				parts := strings.SplitN(rest, ":", 2)
@@ -729,6 +736,11 @@ func (e *SpecEnv) ident(n *ast.Ident) Val {
 	case "rangeidx":
 		return Scalar{e.idx, c.idx()}
 	}
+	if strings.HasPrefix(n.Name, "result") && len(n.Name) == 7 && n.Name[6] >= '0' && n.Name[6] <= '9' {
+		if i := int(n.Name[6] - '0'); i < len(e.results) {
+			return e.results[i]
+		}
+	}
 	if v, ok := e.qvars[n.Name]; ok {
 		return v
 	}
@@ -831,7 +843,10 @@ func (e *SpecEnv) binary(n *ast.BinaryExpr) Val {
 		}
 	case SliceV:
 		if b, ok := bv.(SliceV); ok {
-			return c.strCompare(n.Op, a, b, e.st)
+			if n.Op == token.ADD {
+				return c.concatStr(e.st, a, b)
+			}
+			return e.seqEqual(n.Op, a, b)
 		}
 	case IfaceV:
 		if b, ok := bv.(IfaceV); ok {
@@ -930,8 +945,130 @@ func (e *SpecEnv) binary(n *ast.BinaryExpr) Val {
 	return c.binop(n.Op, a, b, e.st, n.Pos())
 }
 
+// seqEqual: extensional equality of byte sequences / strings in a contract: skolemised in goal position, quantified when assumed
+func (e *SpecEnv) seqEqual(op token.Token, a, b SliceV) Val {
+	c := e.c
+	ida, oka := c.strID(a)
+	idb, okb := c.strID(b)
+	var t string
+	if oka && okb {
+		t = "false"
+		if ida == idb {
+			t = "true"
+		}
+	} else {
+		aa, ba := c.sliceArr(e.st, a), c.sliceArr(e.st, b)
+		if aa == ba && a.Off == b.Off {
+			t = "(= " + a.Len + " " + b.Len + ")"
+		} else {
+			is := c.idx()
+			positive := (op == token.EQL) != e.assume
+			if positive {
+				k := c.fresh("k", is)
+				t = and("(= "+a.Len+" "+b.Len+")", implies(and(c.leIdx(c.ilit(0), k), c.ltIdx(k, a.Len)), "(= (select "+aa+" "+c.addIdx(a.Off, k)+") (select "+ba+" "+c.addIdx(b.Off, k)+"))"))
+			} else {
+				c.qn++
+				k := fmt.Sprintf("k_q%d", c.qn)
+				t = and("(= "+a.Len+" "+b.Len+")", fmt.Sprintf("(forall ((%s %s)) (=> %s (= (select %s %s) (select %s %s))))", k, is.smt(), and(c.leIdx(c.ilit(0), k), c.ltIdx(k, a.Len)), aa, c.addIdx(a.Off, k), ba, c.addIdx(b.Off, k)))
+			}
+		}
+	}
+	if op == token.NEQ {
+		t = not(t)
+	}
+	return Scalar{t, boolSort}
+}
+
+// methodCall: x.M(args) in a contract, for pure library methods and pure-contracted functions: the functional value
+func (e *SpecEnv) methodCall(n *ast.CallExpr, sel *ast.SelectorExpr) (Val, bool) {
+	c := e.c
+	recv := e.eval(sel.X)
+	var t types.Type
+	switch r := recv.(type) {
+	case IfaceV:
+		t = r.T
+	case StructV:
+		t = r.T
+	case PtrV:
+		if r.Named != nil {
+			t = types.NewPointer(r.Named)
+		}
+	}
+	if t == nil {
+		return nil, false
+	}
+	obj, _, _ := types.LookupFieldOrMethod(t, true, c.pkg.Types, sel.Sel.Name)
+	fn, ok := obj.(*types.Func)
+	if !ok {
+		return nil, false
+	}
+	key := funcKey(fn)
+	args := []Val{recv}
+	binds := map[string]Val{}
+	sig := fn.Type().(*types.Signature)
+	for i, a := range n.Args {
+		v := e.eval(a)
+		args = append(args, v)
+		if i < sig.Params().Len() {
+			binds[sig.Params().At(i).Name()] = v
+		}
+	}
+	if sig.Recv() != nil && sig.Recv().Name() != "" {
+		binds[sig.Recv().Name()] = recv
+	}
+	binds["$recv"] = recv
+	if spec := c.prog.contracts.Funcs[key]; spec != nil && spec.Pure {
+		pk := "purespec:" + specKey(spec.Pkg, spec.Name) + "("
+		for _, k := range sortedKeys(binds) {
+			pk += k + "=" + valKey(c, binds[k]) + ","
+		}
+		single := func(v Val) Val {
+			if t, ok := v.(TupleV); ok && len(t) == 1 {
+				return t[0]
+			}
+			return v
+		}
+		if v, ok := c.specEnv[pk]; ok {
+			return single(v), true
+		}
+		var res []Val
+		for i := 0; i < sig.Results().Len(); i++ {
+			res = append(res, c.symbolic(e.st, "r_"+fn.Name(), sig.Results().At(i).Type()))
+		}
+		c.specEnv[pk] = TupleV(res)
+		return single(TupleV(res)), true
+	}
+	if fn.Pkg() != nil && purePkgs[fn.Pkg().Path()] {
+		k := "pure:" + key + "("
+		for _, a := range args {
+			k += valKey(c, a) + ","
+		}
+		if v, ok := c.specEnv[k]; ok {
+			return v, true
+		}
+		var res []Val
+		for i := 0; i < sig.Results().Len(); i++ {
+			res = append(res, c.symbolic(e.st, "r", sig.Results().At(i).Type()))
+		}
+		var v Val = TupleV(res)
+		if len(res) == 1 {
+			v = res[0]
+		}
+		c.specEnv[k] = v
+		return v, true
+	}
+	return nil, false
+}
+
 func (e *SpecEnv) call(n *ast.CallExpr) Val {
 	c := e.c
+	if sel, ok := n.Fun.(*ast.SelectorExpr); ok {
+		if id, isId := sel.X.(*ast.Ident); !isId || id.Name != "spec" {
+			if v, ok := e.methodCall(n, sel); ok {
+				return v
+			}
+		}
+	}
 	name := ""
 	switch f := n.Fun.(type) {
 	case *ast.Ident:
@@ -958,6 +1095,15 @@ func (e *SpecEnv) call(n *ast.CallExpr) Val {
 			return Scalar{v.Len, c.idx()}
 		}
 		panic(unsupported{"contract: len of unmodelled value"})
+	}
+	if name == "string" {
+		return arg(0)
+	}
+	if name == "first" {
+		if t, ok := arg(0).(TupleV); ok && len(t) > 0 {
+			return t[0]
+		}
+		return arg(0)
 	}
 	if t, ok := specConvTypes[name]; ok {
 		v := arg(0)
